@@ -17,6 +17,7 @@
 -/
 import Miden.Lemmas.HashTac
 import Miden.Lemmas.HashMem
+import Miden.Lemmas.Forward
 namespace Miden.C17
 open Miden Spec.H
 set_option linter.unusedSimpArgs false
@@ -241,6 +242,19 @@ theorem native_hash_memory_even_is_hash_elements (env : Env) (fuel : Nat) (vm vm
   rw [h1, List.take_append_of_le_length (by rw [List.length_reverse, hl]; exact Nat.le_refl _),
     List.take_of_length_le (by rw [List.length_reverse, hl]; exact Nat.le_refl _), List.reverse_reverse]
   exact HashMem.hashEven_is_hashElements vm.ctx vm.mem K start
+
+/-- **`native::hash_memory_even` terminates**: with fuel `≥ K + 3` and a cycle budget of `9·K + 12` the
+    executor completes for every hasher state, start address and number `K` of double words, and the
+    state is the one of `native_hash_memory_even_spec`. -/
+theorem native_hash_memory_even_terminates (env : Env) (fuel : Nat) (vm : Vm) (v : List Nat) (start K : Nat)
+    (rest : List Nat) (hv : v.length = 12)
+    (hs : vm.stack = v.reverse ++ start :: (start + 2 * K) :: rest) (hrest : 2 ≤ rest.length)
+    (he : start + 2 * K ≤ 4294967296)
+    (hf : K + 3 ≤ fuel) (hb : vm.clk + 9 * K + 12 ≤ env.maxCycles) :
+    ∃ vm', Vm.exec env fuel Generated.native_hash_memory_even vm = .ok vm' ∧
+      vm'.stack = (HashMem.hashEven vm.ctx vm.mem K start v).reverse ++ (start + 2 * K) :: (start + 2 * K) :: rest := by
+  obtain ⟨vm', h⟩ := HashMem.hash_memory_even_total env fuel vm v start K rest hv hs hrest he hf hb
+  exact ⟨vm', h, (HashMem.hash_memory_even_spec env fuel vm vm' v start K rest hv hs hrest he h).1⟩
 
 /-- The sponge steps, spelled out: no word absorbed leaves the state alone; one more double word is
     one more overwrite-mode absorption followed by the permutation. -/
